@@ -62,7 +62,7 @@ CONSTANTS
   Alphabet = {0, 1, 9, 10, 13, 32, 34, 58, 59, 65, 97, 103, 127, 128, 195, 224, 237, 240, 244, 255, 72, 84, 80, 47, 49, 46, 48, 50}
   SKinds = {"req", "resp", "hdrs", "chunk"}
   Caps = {0, 1, 2, 100000}
-INVARIANT Emit HonestPartial DeferredClosed Labelled
+INVARIANT Emit EmitLabels HonestPartial DeferredClosed Labelled
 VIEW Abs
 CHECK_DEADLOCK FALSE
 """
@@ -117,7 +117,13 @@ def seeds_file():
         if n < 1000:
             raise ToolError("skeleton produced only %d seeds:\n%s" % (n, r["tail"][-2000:]))
         os.replace(p + ".tmp", p)
-        json.dump({"abstract_states": r["distinct"], "generated": r["states"], "seeds": n, "wall_s": r["wall_s"]}, open(meta, "w"))
+        labels = {}
+        for line in open(r["out"], errors="replace"):
+            if line.startswith('<<"LABELS", '):
+                for lab in json.loads(json.loads(line[len('<<"LABELS", '):].rstrip()[:-2])):
+                    labels[lab] = labels.get(lab, 0) + 1
+        json.dump({"abstract_states": r["distinct"], "generated": r["states"], "seeds": n, "wall_s": r["wall_s"],
+                   "abstract_states_per_action": labels}, open(meta, "w"))
     return p, json.load(open(meta))
 
 
